@@ -23,6 +23,13 @@ OUT = os.path.join(V, "lean", "BGVGen")
 WORK = os.path.join(V, ".work", "ast")
 
 
+# library functions that modify (or hand out pointers into) process-wide state
+GLOBAL_STATE_CALLS = {"setlocale", "uselocale", "global", "strtok", "rand", "srand", "random", "srandom", "drand48", "srand48",
+                      "tmpnam", "tempnam", "mktemp", "setenv", "putenv", "unsetenv", "asctime", "ctime", "gmtime", "localtime",
+                      "strerror", "readdir", "getenv_s", "signal", "atexit", "exit", "chdir", "umask", "set_terminate",
+                      "set_new_handler", "sync_with_stdio"}
+
+
 def headers():
     hs = []
     for d, _, fs in os.walk(os.path.join(INC, "BaseGraph")):
@@ -148,6 +155,12 @@ class Walker:
         elif k == "VarDecl" and in_func and node.get("storageClass") == "static":
             if not node.get("type", {}).get("qualType", "").startswith("const "):
                 acc.append("static-local:" + node.get("name", "?"))
+        elif k == "DeclRefExpr":
+            # a call into the C / C++ library that reads-and-writes process-wide state: a const entry point that
+            # reaches one is not safe to call concurrently (setlocale, strtok, rand, std::locale::global, …)
+            ref = node.get("referencedDecl", {})
+            if ref.get("kind") in ("FunctionDecl", "CXXMethodDecl") and ref.get("name") in GLOBAL_STATE_CALLS:
+                acc.append("global-state-call:" + ref.get("name"))
         elif k == "MemberExpr":
             pass
         for ch in node.get("inner", []):
